@@ -25,7 +25,8 @@ def shards(tier):
                 for sg, dg, same in [("p2x2", "t3x2", False), ("t3x2", "p2x2", False), ("p2x2", "p2x2", True)]:
                     out.append(dict(base, op="transfer", sgeo=sg, dgeo=dg, same=same, k=1, steps=3 if tier == "quick" else 4, partition_by="auto", washes=[1]))
                     if hist == 1 or tier == "thorough":
-                        out.append(dict(base, op="transfer", sgeo=sg, dgeo=dg, same=same, k=2, steps=2, partition_by="auto", washes=[1], ncand=2 if tier == "quick" else 4))
+                        out.append(dict(base, op="transfer", sgeo=sg, dgeo=dg, same=same, k=2, steps=2, partition_by="auto", washes=[1],
+                                        ncand=2 if (tier == "quick" or hist == 3) else 4))   # hist=3 with 4 candidates: >40 min per shard
                     if hist == 3 and label == "op":
                         out.append(dict(base, op="transfer", sgeo=sg, dgeo=dg, same=same, k=2, steps=1, partition_by="auto", washes=[1], ncand=2, auto_split=False))
                 out.append(dict(base, op="distribute", sgeo="t3x2", dgeo="p2x2", k=1, steps=1))
